@@ -1,3 +1,161 @@
 // Kani harnesses for src/packet/signature/types.rs (child module: sees private items). See /verif/DESIGN.md 8.1 Engine K.
 #![allow(dead_code, unused_imports)]
 use super::*;
+
+/// Infallible fixed-capacity sink: records what was written and how many octets.
+struct Sink {
+    buf: [u8; 8],
+    len: usize,
+}
+impl Sink {
+    fn new() -> Self {
+        Sink { buf: [0; 8], len: 0 }
+    }
+}
+impl std::io::Write for Sink {
+    fn write(&mut self, data: &[u8]) -> std::io::Result<usize> {
+        let mut i = 0;
+        while i < data.len() {
+            // an overflow of the sink is a harness error and shows up as a failed bounds check
+            self.buf[self.len] = data[i];
+            self.len += 1;
+            i += 1;
+        }
+        Ok(data.len())
+    }
+    fn write_all(&mut self, data: &[u8]) -> std::io::Result<()> {
+        self.write(data).map(|_| ())
+    }
+    fn flush(&mut self) -> std::io::Result<()> {
+        Ok(())
+    }
+}
+
+/// K07 (C05): every `KeyFlags` value reachable from `KeyFlags::default()` through the public
+/// setters (each setter applied with a symbolic boolean; 2^9 combinations, resp. 2^10 with the
+/// forwarding draft feature): `write_len()` equals the number of octets `to_writer` emits, and the
+/// octets are the RFC 9580 5.2.3.29 flag octets: first octet 0x01 certify, 0x02 sign, 0x04 encrypt
+/// communications, 0x08 encrypt storage, 0x10 split key, 0x20 authentication, 0x80 group key;
+/// second octet 0x04 ADSK, 0x08 timestamping; the second octet is present iff it is non-zero.
+/// Complete: loop-free apart from the sink copy loop (fully unwound).
+#[kani::proof]
+#[kani::unwind(4)]
+fn k07_keyflags_setters_write_len_matches_written() {
+    let certify: bool = kani::any();
+    let sign: bool = kani::any();
+    let enc_comms: bool = kani::any();
+    let enc_storage: bool = kani::any();
+    let shared: bool = kani::any();
+    let auth: bool = kani::any();
+    let group: bool = kani::any();
+    let adsk: bool = kani::any();
+    let timestamping: bool = kani::any();
+
+    let mut f = KeyFlags::default();
+    f.set_certify(certify);
+    f.set_sign(sign);
+    f.set_encrypt_comms(enc_comms);
+    f.set_encrypt_storage(enc_storage);
+    f.set_shared(shared);
+    f.set_authentication(auth);
+    f.set_group(group);
+    f.set_adsk(adsk);
+    f.set_timestamping(timestamping);
+    #[allow(unused_mut)]
+    let mut fwd = false;
+    #[cfg(feature = "draft-wussler-openpgp-forwarding")]
+    {
+        fwd = kani::any();
+        f.set_draft_decrypt_forwarded(fwd);
+    }
+
+    // oracle: RFC 9580 5.2.3.29
+    let o1: u8 = (certify as u8)
+        | ((sign as u8) << 1)
+        | ((enc_comms as u8) << 2)
+        | ((enc_storage as u8) << 3)
+        | ((shared as u8) << 4)
+        | ((auth as u8) << 5)
+        | ((fwd as u8) << 6)
+        | ((group as u8) << 7);
+    let o2: u8 = ((adsk as u8) << 2) | ((timestamping as u8) << 3);
+    let expect_len: usize = if o2 != 0 { 2 } else { 1 };
+
+    let mut w = Sink::new();
+    let r = f.to_writer(&mut w);
+    assert!(r.is_ok(), "to_writer failed on an infallible sink");
+    assert!(f.write_len() == w.len, "KeyFlags::write_len() != number of octets written");
+    assert!(w.len == expect_len, "second flag octet must be present iff non-zero");
+    assert!(w.buf[0] == o1, "first key flags octet differs from RFC 9580 5.2.3.29");
+    if w.len == 2 {
+        assert!(w.buf[1] == o2, "second key flags octet differs from RFC 9580 5.2.3.29");
+    }
+    kani::cover!(timestamping && !adsk && w.len == 2);
+    kani::cover!(!timestamping && !adsk && certify && w.len == 1);
+}
+
+/// K07 (C05): every parsed key flags body of exactly N octets (`try_from_reader`, the real
+/// parser): `write_len()` equals the number of octets `to_writer` emits, and the emitted octets
+/// are the parsed body (round trip, which is what `original_len` is stored for).
+fn keyflags_parsed<const N: usize>() {
+    let bytes: [u8; N] = kani::any();
+    let parsed = KeyFlags::try_from_reader(&bytes[..]);
+    let f = match parsed {
+        Ok(f) => f,
+        Err(_) => {
+            assert!(false, "key flags body rejected");
+            return;
+        }
+    };
+    let mut w = Sink::new();
+    let r = f.to_writer(&mut w);
+    assert!(r.is_ok());
+    assert!(f.write_len() == w.len, "KeyFlags::write_len() != number of octets written");
+    assert!(w.len == N, "serialized key flags length differs from the parsed body length");
+    let mut i = 0;
+    while i < N {
+        assert!(w.buf[i] == bytes[i], "serialized key flags differ from the parsed body");
+        i += 1;
+    }
+    kani::cover!(N == 0 || bytes[N - 1] != 0);
+    kani::cover!(N == 0 || bytes[N - 1] == 0);
+}
+
+#[kani::proof]
+#[kani::unwind(8)]
+fn k07_keyflags_parsed_1_octet() {
+    keyflags_parsed::<1>();
+}
+#[kani::proof]
+#[kani::unwind(8)]
+fn k07_keyflags_parsed_2_octets() {
+    keyflags_parsed::<2>();
+}
+#[kani::proof]
+#[kani::unwind(8)]
+fn k07_keyflags_parsed_3_octets() {
+    keyflags_parsed::<3>();
+}
+
+/// K07 (C05): the same statement for every *state* of the three fields that the parser can
+/// produce for bodies of 0..=2 octets and that the setters can then modify (fields built directly:
+/// the harness is a child module).  This covers "parsed 1 octet, then a second-octet flag set",
+/// which neither of the harnesses above reaches.  Complete: all u16 x original_len in 0..=2.
+#[kani::proof]
+#[kani::unwind(4)]
+fn k07_keyflags_fields_write_len_matches_written() {
+    let bits: u16 = kani::any();
+    let original_len: usize = kani::any();
+    kani::assume(original_len <= 2);
+    let f = KeyFlags {
+        known: KnownKeyFlags::from_bits(bits),
+        rest: None,
+        original_len,
+    };
+    let mut w = Sink::new();
+    let r = f.to_writer(&mut w);
+    assert!(r.is_ok());
+    assert!(f.write_len() == w.len, "KeyFlags::write_len() != number of octets written");
+    kani::cover!(original_len == 1 && bits == 0x0800 && w.len == 2);
+    kani::cover!(original_len == 0 && w.len == 0);
+}
